@@ -46,6 +46,7 @@ type Net struct {
 	// OnFault is told when a fault takes effect.
 	OnFault func(kind string)
 	Dials   int
+	live    []*conn // client ends of established connections
 }
 
 // New returns an empty network.
@@ -208,7 +209,43 @@ func (n *Net) Dial(a string, timeout time.Duration) (net.Conn, error) {
 	l.queue = append(l.queue, server)
 	l.cond.Signal()
 	l.mu.Unlock()
+	n.mu.Lock()
+	n.live = append(n.live, client)
+	n.mu.Unlock()
 	return client, nil
+}
+
+// ResetWhere resets (both directions) every established connection whose
+// destination address satisfies match; it returns how many it reset.
+func (n *Net) ResetWhere(match func(remote string) bool) int {
+	n.mu.Lock()
+	var hit, keep []*conn
+	for _, c := range n.live {
+		c.closeMu.Lock()
+		closed := c.closed
+		c.closeMu.Unlock()
+		if closed {
+			continue
+		}
+		if match(string(c.remote)) {
+			hit = append(hit, c)
+		} else {
+			keep = append(keep, c)
+		}
+	}
+	n.live = keep
+	n.mu.Unlock()
+	for _, c := range hit {
+		for _, h := range []*half{c.rd, c.wr} {
+			h.mu.Lock()
+			if h.err == nil {
+				h.err = errReset
+			}
+			h.cond.Broadcast()
+			h.mu.Unlock()
+		}
+	}
+	return len(hit)
 }
 
 // Pipe returns the two ends of a connection with the given policy without
